@@ -884,6 +884,9 @@ class Intrinsics:
         if isinstance(obj, LockV):
             if name in ("__enter__", "__exit__", "acquire", "release"):
                 return [(st, BuiltinV("lock." + name, recv=obj))]
+        if isinstance(obj, Z) and name == "_data" and obj.meta.get("plain"):
+            # a plain value (not a synced node) has no _data attribute
+            return [(st, Raise(eng.mk_exc("AttributeError")))]
         if isinstance(obj, Z):
             if obj.hint == "node" or obj.meta.get("maybe_node") or (obj.meta.get("item_of") is not None
                                                                        and name in eng.virtual):
@@ -1038,6 +1041,10 @@ class Intrinsics:
             return [(st, Const(None))]
         st.event("object-delattr-symbolic", fn.recv.addr, to_val(name))
         return [(st, Const(None))]
+
+    def b_object_default(self, eng, st, fn, args, kwargs):
+        # json.JSONEncoder.default: always TypeError
+        return [(st, Raise(eng.mk_exc("TypeError")))]
 
     def b_object___init__(self, eng, st, fn, args, kwargs):
         return [(st, Const(None))]
